@@ -30,7 +30,9 @@ CLAIMED = {
         text="Theorem C02_cmp over the Lean model of TimePoint._cmp (re-zone, 24:00 normalisation, list comparison by "
              "the left operand's representation): the comparison is exactly the order of the instants for all valid "
              "whole-second operands in any mix of representations/offsets/24:00; the six operators, trichotomy, "
-             "symmetry, transitivity, hash-key equality for equal instants and the sign of a-b follow as theorems. "
+             "symmetry, transitivity, hash-key equality for equal instants and the sign of a-b follow as theorems; Props/C02b: "
+             "cmp b a = -(cmp a b) (C02_cmp_antisymm), == is a congruence for every comparison (C02_cmp_congr), re-zoning either "
+             "operand never changes a comparison (C02_cmp_rezone_invariant). "
              "Precision forms: Props/C02q proves the same (C02_cmp_rat, C02_operators_rat, C02_hash_rat, C02_sub_sign_rat) "
              "for the model cmpQ/hashKeyQ that runs _cmp/__hash__ over exact rationals with the minute/second slots "
              "possibly None (decimal-hour/-minute/-second forms, mixed freely), and that it coincides with the integer "
